@@ -29,6 +29,7 @@ import CtyModel.Lemmas.d13Model
 import CtyModel.Lemmas.d13Seq
 import CtyModel.Lemmas.d13Index
 import CtyModel.Lemmas.d13Map
+import CtyModel.Lemmas.d13Misc
 namespace CtyModel
 namespace C13
 open Stdlib Value
@@ -931,6 +932,56 @@ theorem merge_type (T : Ty) (hT : (isMapTy T || isObjectTy T) = true) (heq : T.e
     mergeType args = .ok T ∧ mergeType [] = .ok (.object [] [] []) :=
   ⟨mergeType_same T hT heq hnd args hne hargs, rfl⟩
 
+/-! ## domain and environment: what was left to a hypothesis -/
+
+/-- **coalesce of arguments of ONE type** under `modelEnv` (the environment `std.callm`
+runs): the `Type` callback answers that type — unification of equal types is computed,
+not assumed — and the result is the first non-null argument itself; an error when all
+are null.  (Arguments of DIFFERENT types are converted to the unified type by package
+`convert`: that reference is C08/C09's, `coalesce_first_non_null` says which argument.) -/
+theorem coalesce_same_type (t : Ty) (args : List Value) (hne : args ≠ [])
+    (hty : ∀ a ∈ args, a.ty = t) (hk : ∀ a ∈ args, a.isKnown = true)
+    (hw : t.wf = true) (ho : t.hasOpt = false) (hd : Unify.tyDepth t < 48) :
+    coalesceType modelEnv args = .ok t ∧
+    coalesceImpl modelEnv args t =
+      match args.find? (fun a => !a.isNull) with
+      | some a => .ok a
+      | none => .err "no non-null arguments" :=
+  coalesce_same_type_model t args hne hty hk hw ho hd
+
+/-- result type of `concat` for lists of one type under `modelEnv`, with no hypothesis
+about unification -/
+theorem concat_type_model (e : Ty) (ls : List (List Payload)) (hne : ls ≠ [])
+    (hw : e.wf = true) (ho : e.hasOpt = false) (hd : Unify.tyDepth (.list e) < 48) :
+    concatType modelEnv (sameLists e ls) = .ok (.list e) :=
+  concatType_lists_model e ls hne hw ho hd
+
+/-- **flatten fails outside its domain**: a wholly known argument that is not a list, set
+or tuple is refused by the `Type` callback (inside: `flatten_eq`, `flatten_empty`) -/
+theorem flatten_fails_outside_domain (E : Env) (arg : Value) (hwk : arg.whollyKnown = true)
+    (hs : isSeqTy arg.ty = false) : Fails (flattenType E [arg]) :=
+  flattenType_outside E arg hwk hs
+
+/-- **merge fails outside its domain**: an argument that is neither a map nor an object
+(nor of the dynamic pseudo-type, which defers the decision) is refused by the `Type`
+callback wherever it stands, the arguments before it being maps or objects — null,
+unknown or readable (inside the domain: `merge_map`, `merge_object`, `merge_type`) -/
+theorem merge_fails_outside_domain (pre : List Value) (bad : Value) (rest : List Value)
+    (hp : ∀ a ∈ pre, a.ty.equals .dyn = false ∧ (isMapTy a.ty || isObjectTy a.ty) = true ∧
+      (a.unmark.isNull = true ∨ a.unmark.isKnown = false ∨ ∃ ks, elemKeys a.unmark = .ok ks))
+    (hb : notMapOrObject bad = true) :
+    Fails (mergeType (pre ++ bad :: rest)) :=
+  mergeType_outside pre bad rest hp hb
+
+/-- **zipmap rejects a null key** (with `zipmap_domain_and_type`: for a list of values the
+call fails exactly when the lengths differ or some key is null — `zipmap_list` is the
+`ok` answer for string keys of the same length) -/
+theorem zipmap_null_key_rejected (E : Env) (e : Ty) (pre : List String) (post : List Payload) (vs : List Payload)
+    (hpost : ∀ p ∈ post, isStrOrNull p = true)
+    (hl : pre.length + 1 + post.length = vs.length) (hlen : (vs.length : Int) ≤ maxInt) (retTy : Ty) :
+    Fails (zipmapImpl E [⟨.list .string, .seq (pre.map Payload.s ++ .null :: post)⟩, ⟨.list e, .seq vs⟩] retTy) :=
+  zipmapImpl_null_key E e pre post vs hpost hl hlen retTy
+
 /-! ## Non-vacuity: the hypotheses above are satisfiable by non-trivial values -/
 
 example : Gocty.int64Exact (Num.ofInt (-7)) = some (-7) := by decide
@@ -1003,6 +1054,8 @@ example : Spec.attr? "b" ["a", "b"] [.string, .number] [.s "x", .n (Num.ofInt 1 
 example : Payload.plainMember (.tuple [.number, .string]) (.seq [.n (Num.ofInt 1 64), .s "a"]) = true := by decide
 example : Spec.firstOccs (rawB .string) [.s "a", .s "b", .s "a", .null, .null] = [.s "a", .s "b", .null] := by
   simp [Spec.firstOccs, Spec.firstOccsFrom, rawB]
+example : notMapOrObject ⟨.list .string, .seq []⟩ = true ∧ notMapOrObject ⟨.map .string, .smap [] []⟩ = false := by decide
+example : Unify.tyDepth (.list (.tuple [.number, .string])) < 48 := by decide
 
 end C13
 end CtyModel
